@@ -803,3 +803,54 @@ Example C07_example_flat :
   flatfam e = true /\ lam_ok e = true /\ tok_ok O e = true /\ wf e = true /\
   Formatter.contains_nl (Formatter.render (Formatter.fmtd O 10 e 0)) = true.
 Proof. vm_compute. repeat split. Qed.
+
+(* The list family at the VIEW level (proofs/FmtToksCanon.v, FmtToksList.v).  `canon` ignores a `,` directly
+   before a closer at the end of a chunk list (3-chunk look-ahead; the condition on X is needed: `,,]`). *)
+Require Import Blots.proofs.FmtToksCanon Blots.proofs.FmtToksList.
+Theorem C07_canon_trailing_comma : forall X c, is_closer c = true -> (X = [] \/ last X "" <> ",") ->
+  canon (X ++ [","; c])%list = canon (X ++ [c])%list.
+Proof. exact canon_trailing. Qed.
+Check C07_canon_trailing_comma : forall X c, is_closer c = true -> (X = [] \/ last X "" <> ",") ->
+  canon (X ++ [","; c])%list = canon (X ++ [c])%list.
+Print Assumptions C07_canon_trailing_comma.
+
+(* format_list_multiline (a `,` after EVERY element) against expr_to_source (between elements): if every
+   element x has `lchild_ok` — tok_ok x, format_single_line's text of x is the one-line text, and at every
+   indentation toks (layout of x) = toks (one-line text of x) (true of every element in the fragment of
+   C07_layout_view_flat_partial) — and the last chunk of the last element is not `,`, the laid-out list and the
+   one-line list have the same view, at every width and indentation, for any printer version.  Family theorem with
+   the elements' equalities as hypotheses; elements that are themselves lists / records / calls / lambdas
+   (chunk lists equal only up to canon) need the general congruence of canon: open. *)
+Theorem C07_layout_view_list_partial : forall fx pol numtxt keepc w items i,
+  plain_items items = true ->
+  tok_ok (printer_oracles fx pol numtxt keepc) (EList items) = true ->
+  Forall (fun c => lchild_ok fx pol numtxt keepc w (cnode c)) items ->
+  last ("[" :: joinc (map (Tc fx pol numtxt) items)) "" <> "," ->
+  lview (Formatter.render (Formatter.fmtd (printer_oracles fx pol numtxt keepc) w (EList items) i))
+  = lview (print_text fx pol numtxt (EList items)).
+Proof. exact list_family. Qed.
+Check C07_layout_view_list_partial : forall fx pol numtxt keepc w items i,
+  plain_items items = true ->
+  tok_ok (printer_oracles fx pol numtxt keepc) (EList items) = true ->
+  Forall (fun c => lchild_ok fx pol numtxt keepc w (cnode c)) items ->
+  last ("[" :: joinc (map (Tc fx pol numtxt) items)) "" <> "," ->
+  lview (Formatter.render (Formatter.fmtd (printer_oracles fx pol numtxt keepc) w (EList items) i))
+  = lview (print_text fx pol numtxt (EList items)).
+Print Assumptions C07_layout_view_list_partial.
+
+(* satisfiable: [a + b, "x, y"] at width 1 (elements from the operator fragment) *)
+Example C07_example_list :
+  let O := printer_oracles FX_ALL (policy_new fixed_opinfo) num_text true in
+  let items := [Cm [] (EBin Add (EId "a") (EId "b")) None; Cm [] (EStr "x, y") None] in
+  plain_items items = true /\ tok_ok O (EList items) = true /\
+  Forall (fun c => lchild_ok FX_ALL (policy_new fixed_opinfo) num_text true 1 (cnode c)) items /\
+  last ("[" :: joinc (map (Tc FX_ALL (policy_new fixed_opinfo) num_text) items)) "" <> "," /\
+  Formatter.contains_nl (Formatter.render (Formatter.fmtd O 1 (EList items) 0)) = true /\
+  toks (Formatter.render (Formatter.fmtd O 1 (EList items) 0))
+  <> toks (print_text FX_ALL (policy_new fixed_opinfo) num_text (EList items)).
+Proof.
+  cbv zeta. split; [reflexivity|]. split; [vm_compute; reflexivity|]. split.
+  - repeat constructor; try (vm_compute; reflexivity);
+      intro j; apply binfam_toks; vm_compute; reflexivity.
+  - split; [vm_compute; discriminate|]. split; [vm_compute; reflexivity|vm_compute; discriminate].
+Qed.
